@@ -186,17 +186,17 @@ PROPS['C16'] = {
     'oracle_cases': {'quick': 4800, 'thorough': 200000},
     'trusted_base': ['float division (2p-n+1)/(n-1) is injective in p at grid sizes (the model compares exact fractions)'],
     'assumptions': ['equality is Python equality of grid objects (type, status, colour)'],
-    'partial': 'proved: per-object injectivity (3 encodings), positional grid array, agent marker, agent-array injectivity, channel disjointness, compact density and order-independence. The assembled statement "two member states have equal dictionaries iff they are equal" is checked by the oracle on pairs, not yet stated as one Lean theorem.',
+    'partial': 'proved: per-object injectivity (3 encodings), positional grid array, agent marker, agent-array injectivity, channel disjointness, compact density and order-independence, and the assembled state-level statement C16_state_lossless (two member states have equal dictionaries iff they are equal). The observation-level analogue is checked by the oracle on pairs only.',
 }
 
 RESETM = 'harness.corr_reset'
 PROPS['C13'] = {
-    'targets': ['GridVerse.Props.C13'],
-    'theorem_files': [('GridVerse/Props/C13.lean', 'C13_')] + AG('Objects'),
+    'targets': ['GridVerse.Props.C13', 'GridVerse.Props.C14Rooms', 'GridVerse.Props.C14Crossing'],
+    'theorem_files': [('GridVerse/Props/C13.lean', 'C13_'), ('GridVerse/Props/C14Rooms.lean', 'C13_'), ('GridVerse/Props/C14Crossing.lean', 'C13_')] + AG('Objects'),
     'audit_prefix': 'C13_',
     'families': {
-        'quick': [(RESETM, 'fam_reset_random', 16000, 16), (RESETM, 'fam_reset_grid', 0, 16)],
-        'thorough': [(RESETM, 'fam_reset_random', 1200000, 16), (RESETM, 'fam_reset_grid', 0, 16)],
+        'quick': [(RESETM, 'fam_reset_random', 16000, 16), (RESETM, 'fam_reset_grid', 0, 16), (RESETM, 'fam_splits', 0, 16)],
+        'thorough': [(RESETM, 'fam_reset_random', 1200000, 16), (RESETM, 'fam_reset_grid', 0, 16), (RESETM, 'fam_splits', 0, 16)],
     },
     'oracle_cases': {'quick': 16000, 'thorough': 1600000},
     'trusted_base': [
@@ -204,7 +204,7 @@ PROPS['C13'] = {
         'numpy Generator.integers/choice/shuffle semantics as recorded by the proxy (request sequence and answers compared on every reset)',
     ],
     'assumptions': ['colour sets are passed sorted by value (the code sorts them since the F6 repair)'],
-    'partial': 'Lean theorems (complete cell-by-cell description for every stream, and rejection with ValueError) for empty, dynamic_obstacles, teleport, keydoor, memory. crossing, rooms and memory_rooms are modelled and tied by draw-log correspondence on shapes 1x1..8x8 + shipped shapes, their well-formedness is decided by the oracle on the implementation, not yet by a theorem.',
+    'partial': 'Lean theorems (structural description for every stream, and rejection with ValueError) for empty, dynamic_obstacles, teleport, keydoor, memory, rooms (>= 4 rows; numpy split vectors are inputs satisfying the code\'s own checks) and crossing (wall rivers). memory_rooms (same room grid as rooms, plus beacons/exits) is modelled and tied by draw-log correspondence on shapes up to 13x13; its well-formedness is decided by the oracle on the implementation, not yet by a theorem.',
 }
 
 PROPS['C01'] = {
@@ -303,12 +303,12 @@ PROPS['C03'] = {
 
 WINM = 'harness.corr_win'
 PROPS['C14'] = {
-    'targets': ['GridVerse.Props.C14', 'GridVerse.Props.C14Teleport'],
-    'theorem_files': [('GridVerse/Props/C14.lean', 'C14_'), ('GridVerse/Props/C14Teleport.lean', 'C14_')],
+    'targets': ['GridVerse.Props.C14', 'GridVerse.Props.C14Teleport', 'GridVerse.Props.C14Rooms', 'GridVerse.Props.C14Crossing'],
+    'theorem_files': [('GridVerse/Props/C14.lean', 'C14_'), ('GridVerse/Props/C14Teleport.lean', 'C14_'), ('GridVerse/Props/C14Rooms.lean', 'C14_'), ('GridVerse/Props/C14Crossing.lean', 'C14_')],
     'audit_prefix': 'C14_',
     'families': {
-        'quick': [(WINM, 'fam_win_theorem_plans', 1920, 16), (WINM, 'fam_win_solver', 960, 16), (WINM, 'fam_win_real_plans', 640, 16), (RESETM, 'fam_reset_random', 4000, 16), (CORE, 'fam_trans_random', 3000, 16), (CORE, 'fam_term', 2000, 16)],
-        'thorough': [(WINM, 'fam_win_theorem_plans', 96000, 16), (WINM, 'fam_win_solver', 48000, 16), (WINM, 'fam_win_real_plans', 16000, 16), (RESETM, 'fam_reset_random', 200000, 16), (CORE, 'fam_trans_random', 100000, 16), (CORE, 'fam_term', 50000, 16)],
+        'quick': [(WINM, 'fam_win_theorem_plans', 1920, 16), (WINM, 'fam_win_solver', 960, 16), (WINM, 'fam_win_real_plans', 640, 16), (RESETM, 'fam_splits', 0, 16), (RESETM, 'fam_reset_random', 4000, 16), (CORE, 'fam_trans_random', 3000, 16), (CORE, 'fam_term', 2000, 16)],
+        'thorough': [(WINM, 'fam_win_theorem_plans', 96000, 16), (WINM, 'fam_win_solver', 48000, 16), (WINM, 'fam_win_real_plans', 16000, 16), (RESETM, 'fam_splits', 0, 16), (RESETM, 'fam_reset_random', 200000, 16), (CORE, 'fam_trans_random', 100000, 16), (CORE, 'fam_term', 50000, 16)],
     },
     'oracle_cases': {'quick': 480, 'thorough': 16000},
     'trusted_base': [
@@ -320,9 +320,9 @@ PROPS['C14'] = {
         'winnable = some action sequence and some resolution of the draws reaches the rewarded goal with no earlier terminating step (exists-draws reading for the stochastic obstacle dynamics)',
         'each layout is paired with the dynamics and termination of the shipped configurations that use it',
     ],
-    'partial': 'Proved for all parameters and draws: empty, memory, keydoor, teleport (closed-form plans). rooms, crossing: only certificate soundness is proved; winnability is decided per sampled instance by a model-found plan executed on the real code (no for-all theorem yet). memory_rooms and crowded dynamic_obstacles are false today: known findings F9, F11.',
-    'level_text': 'Lean 4 theorems: closed-form winning plans for empty / memory / keydoor / teleport for every parameter value and draw stream, soundness of plan certificates for the other layouts; plans executed on the real dynamics.',
-    'level_note': 'Partial: for rooms, crossing, memory_rooms and dynamic_obstacles the for-all-parameters statement is not proved; those are decided per sampled instance via proved-sound certificates. Trusted: Lean kernel; standard axioms; hand-written model tied by differential execution.',
+    'partial': 'Proved for all valid parameters and all draws: empty, memory, keydoor, teleport (closed-form executable plans), rooms (>= 4 rows, split vectors as inputs), crossing (wall rivers) (connectivity through the passages / the opened path). memory_rooms and crowded dynamic_obstacles are false today (known findings F9, F11); for them and for dynamic_obstacles in general (stochastic) winnability is decided per sampled instance by plans accepted by the proved-sound certificate check and executed on the real code.',
+    'level_text': 'Lean 4 theorems: for every valid parameter value and draw stream the goal is reachable for empty / memory / keydoor / teleport (closed-form winning plans) and rooms / crossing (connectivity), soundness of plan certificates for the remaining layouts; plans executed on the real dynamics.',
+    'level_note': 'Partial: for memory_rooms and dynamic_obstacles the for-all-parameters statement is not proved (it is false for memory_rooms and for crowded obstacle rooms); those are decided per sampled instance via proved-sound certificates. Trusted: Lean kernel; standard axioms; hand-written model tied by differential execution.',
 }
 
 NOT_CLAIMED = {}
